@@ -8,6 +8,7 @@ IDS="$@"; [ "$IDS" = all ] && IDS=$(ls seeded)
 miss=0
 for NAME in $IDS; do
   ID=${NAME%%-*}
+  if [ -f /verif/seeded/$NAME/SUPERSEDED ]; then echo "$NAME skipped (superseded by a fix: see seeded/$NAME/SUPERSEDED)"; continue; fi
   WT=/tmp/vmut-$$-$NAME
   git -C /repo worktree add -q --detach $WT HEAD || exit 9
   if ! git -C $WT apply --whitespace=nowarn /verif/seeded/$NAME/patch.diff; then echo "$NAME patch does not apply"; git -C /repo worktree remove --force $WT; miss=1; continue; fi
